@@ -34,7 +34,9 @@ type Req struct {
 	// after = queued once WritePacket returned, writer waits for the decode;
 	// free = a peer goroutine answers concurrently; defer = answered later (see Flush)
 	Mode string `json:"mode"`
-	Dup  bool   `json:"dup,omitempty"` // the peer sends the answer twice
+	Dup  bool   `json:"dup,omitempty"`  // the peer sends the answer twice
+	AMF3 bool   `json:"amf3,omitempty"` // the peer answers with an AMF3 command message (type 17, leading 0 byte)
+	Pad  int    `json:"pad,omitempty"`  // bytes of padding strings in the request's command object (a request larger than the writer's buffer reaches the transport in several Write calls)
 }
 
 type Case struct {
@@ -43,6 +45,8 @@ type Case struct {
 	Flush []int `json:"flush,omitempty"`
 	Pick  []int `json:"pick,omitempty"`
 	Other []int `json:"other,omitempty"` // request indices after which the peer also sends an unrelated onStatus call
+	// ChunkSize != 0: the writer first announces and uses this outgoing chunk size
+	ChunkSize uint32 `json:"chunk_size,omitempty"`
 }
 
 type result struct {
@@ -69,9 +73,11 @@ type harness struct {
 	peerCh   chan int
 	inside   bool
 	readErr  error
+	dech     *rtmpref.Dechunker // independent view of what the writer has put on the wire
+	tail     []byte
 }
 
-func responseBytes(ch *rtmpref.Chunker, kind string, tid float64) []byte {
+func responseBytes(ch *rtmpref.Chunker, kind string, tid float64, amf3 bool) []byte {
 	var vals []amf0ref.Val
 	vals = append(vals, amf0ref.Val{K: amf0ref.String, Str: []byte("_result")}, amf0ref.Val{K: amf0ref.Number, Num: math.Float64bits(tid)})
 	if kind == "connect" {
@@ -83,6 +89,9 @@ func responseBytes(ch *rtmpref.Chunker, kind string, tid float64) []byte {
 	var p []byte
 	for _, v := range vals {
 		p = append(p, amf0ref.Encode(v, amf0ref.Lib)...)
+	}
+	if amf3 {
+		return ch.Whole(rtmpref.Item{Cid: 3, Form: 1, Fmt: 0, Msg: rtmpref.Msg{Type: 17, Payload: append([]byte{0}, p...)}})
 	}
 	return ch.Whole(rtmpref.Item{Cid: 3, Form: 1, Fmt: 0, Msg: rtmpref.Msg{Type: 20, Payload: p}})
 }
@@ -97,14 +106,14 @@ func otherBytes(ch *rtmpref.Chunker) []byte {
 
 // queue injects the answer for tid (shaped for kind) and records what the model expects.
 // Caller holds h.mu.
-func (h *harness) queueLocked(kind string, tid float64) {
+func (h *harness) queueLocked(kind string, tid float64, amf3 ...bool) {
 	if req, ok := h.model[tid]; ok {
 		delete(h.model, tid)
 		h.expected = append(h.expected, expect{tid, map[string]string{"connect": "connectRes", "createStream": "createStreamRes"}[req]})
 	} else {
 		h.expected = append(h.expected, expect{tid, "error"})
 	}
-	h.rd.Write(responseBytes(h.ch, kind, tid))
+	h.rd.Write(responseBytes(h.ch, kind, tid, len(amf3) > 0 && amf3[0]))
 }
 
 func (h *harness) waitDecodedLocked(n int) error {
@@ -134,14 +143,31 @@ func (w *wr) Write(p []byte) (int, error) {
 	h := w.h
 	h.mu.Lock()
 	defer h.mu.Unlock()
+	// a peer can answer a request once all of its bytes are with the transport: follow the wire
+	// with the reference de-chunker and act when this Write completes a command message
+	h.tail = append(h.tail, p...)
+	res, e := h.dech.Dechunk(h.tail)
+	if e != nil && e != rtmpref.ErrShort {
+		w.err = fmt.Errorf("the writer's bytes are not a valid chunk stream: %v", e)
+		return len(p), nil
+	}
+	h.tail = append([]byte(nil), h.tail[res.Used:]...)
+	complete := false
+	for _, m := range res.Msgs {
+		if m.Type == 20 {
+			complete = true
+		}
+	}
+	if !complete {
+		return len(p), nil
+	}
 	r := h.c.Reqs[h.cur]
-	// the request bytes are now with the transport
 	h.model[r.Tid] = r.Kind
 	switch r.Mode {
 	case "inside":
-		h.queueLocked(r.Kind, r.Tid)
+		h.queueLocked(r.Kind, r.Tid, r.AMF3)
 		if r.Dup {
-			h.queueLocked(r.Kind, r.Tid)
+			h.queueLocked(r.Kind, r.Tid, r.AMF3)
 		}
 		if e := h.waitDecodedLocked(len(h.expected)); e != nil {
 			w.err = e
@@ -153,7 +179,7 @@ func (w *wr) Write(p []byte) (int, error) {
 }
 
 func runCase(c Case) (stInside, stOutOfOrder bool, err error) {
-	h := &harness{model: map[float64]string{}, rd: xport.NewBlockPipe(), ch: rtmpref.NewChunker(), c: c, peerCh: make(chan int, len(c.Reqs)+1)}
+	h := &harness{model: map[float64]string{}, rd: xport.NewBlockPipe(), ch: rtmpref.NewChunker(), c: c, peerCh: make(chan int, len(c.Reqs)+1), dech: rtmpref.NewDechunker()}
 	h.cond = sync.NewCond(&h.mu)
 	w := &wr{h: h}
 	a := rtmp.NewProtocol(xport.RW{Reader: h.rd, Writer: w})
@@ -204,9 +230,9 @@ func runCase(c Case) (stInside, stOutOfOrder bool, err error) {
 		for i := range h.peerCh {
 			h.mu.Lock()
 			r := c.Reqs[i]
-			h.queueLocked(r.Kind, r.Tid)
+			h.queueLocked(r.Kind, r.Tid, r.AMF3)
 			if r.Dup {
-				h.queueLocked(r.Kind, r.Tid)
+				h.queueLocked(r.Kind, r.Tid, r.AMF3)
 			}
 			h.mu.Unlock()
 		}
@@ -219,6 +245,20 @@ func runCase(c Case) (stInside, stOutOfOrder bool, err error) {
 	for _, i := range c.Other {
 		otherAt[i] = true
 	}
+	if c.ChunkSize != 0 {
+		scs := rtmp.NewSetChunkSize()
+		scs.ChunkSize = c.ChunkSize
+		if e := a.WritePacket(scs, 0); e != nil {
+			return false, false, fmt.Errorf("WritePacket(SetChunkSize %d): %v", c.ChunkSize, e)
+		}
+	}
+	pad := func(o *amf0.Object, n int) {
+		for i := 0; n > 0; i++ {
+			k := min(n, 60000)
+			o.Set(fmt.Sprintf("pad%d", i), amf0.NewString(string(make([]byte, k))))
+			n -= k
+		}
+	}
 	for i, r := range c.Reqs {
 		h.mu.Lock()
 		h.cur = i
@@ -227,10 +267,16 @@ func runCase(c Case) (stInside, stOutOfOrder bool, err error) {
 		if r.Kind == "connect" {
 			k := rtmp.NewConnectAppPacket()
 			k.CommandObject.Set("app", amf0.NewString("live"))
+			pad(k.CommandObject, r.Pad)
 			pkt = k
 		} else {
 			k := rtmp.NewCreateStreamPacket()
 			k.TransactionID = amf0.Number(r.Tid)
+			if r.Pad > 0 {
+				o := amf0.NewObject()
+				pad(o, r.Pad)
+				k.CommandObject = o
+			}
 			pkt = k
 		}
 		if e := a.WritePacket(pkt, 0); e != nil {
@@ -246,9 +292,9 @@ func runCase(c Case) (stInside, stOutOfOrder bool, err error) {
 		case "inside":
 			stInside = true
 		case "after":
-			h.queueLocked(r.Kind, r.Tid)
+			h.queueLocked(r.Kind, r.Tid, r.AMF3)
 			if r.Dup {
-				h.queueLocked(r.Kind, r.Tid)
+				h.queueLocked(r.Kind, r.Tid, r.AMF3)
 			}
 			err = h.waitDecodedLocked(len(h.expected))
 		case "defer":
@@ -272,9 +318,9 @@ func runCase(c Case) (stInside, stOutOfOrder bool, err error) {
 			}
 			j := pending[k]
 			pending = append(pending[:k], pending[k+1:]...)
-			h.queueLocked(c.Reqs[j].Kind, c.Reqs[j].Tid)
+			h.queueLocked(c.Reqs[j].Kind, c.Reqs[j].Tid, c.Reqs[j].AMF3)
 			if c.Reqs[j].Dup {
-				h.queueLocked(c.Reqs[j].Kind, c.Reqs[j].Tid)
+				h.queueLocked(c.Reqs[j].Kind, c.Reqs[j].Tid, c.Reqs[j].AMF3)
 			}
 		}
 		h.mu.Unlock()
@@ -296,9 +342,9 @@ func runCase(c Case) (stInside, stOutOfOrder bool, err error) {
 		}
 		j := pending[k]
 		pending = append(pending[:k], pending[k+1:]...)
-		h.queueLocked(c.Reqs[j].Kind, c.Reqs[j].Tid)
+		h.queueLocked(c.Reqs[j].Kind, c.Reqs[j].Tid, c.Reqs[j].AMF3)
 		if c.Reqs[j].Dup {
-			h.queueLocked(c.Reqs[j].Kind, c.Reqs[j].Tid)
+			h.queueLocked(c.Reqs[j].Kind, c.Reqs[j].Tid, c.Reqs[j].AMF3)
 		}
 	}
 	if err == nil {
@@ -402,7 +448,14 @@ func TestSchedules(t *testing.T) {
 				Mode: rapid.SampledFrom([]string{"inside", "after", "free", "defer"}).Draw(t, "mode"),
 				Dup:  rapid.IntRange(0, 5).Draw(t, "dup") == 0}
 			r.Tid = rapid.SampledFrom([]float64{1, 2, 3, 4, 5, 0.5, 1e300, 4294967296}).Draw(t, "tid")
+			r.AMF3 = rapid.IntRange(0, 4).Draw(t, "amf3") == 0
+			if rapid.IntRange(0, 5).Draw(t, "big") == 0 {
+				r.Pad = rapid.SampledFrom([]int{100, 3900, 4096, 8100, 8200, 12000, 70000}).Draw(t, "pad")
+			}
 			c.Reqs = append(c.Reqs, r)
+		}
+		if rapid.IntRange(0, 2).Draw(t, "scs") == 0 {
+			c.ChunkSize = rapid.SampledFrom([]uint32{1, 127, 4096, 8000, 8300, 60000, 1 << 24}).Draw(t, "chunk")
 		}
 		c.Flush = rapid.SliceOfN(rapid.IntRange(0, 3), 0, n).Draw(t, "flush")
 		c.Pick = rapid.SliceOfN(rapid.IntRange(0, 5), 0, 8).Draw(t, "pick")
